@@ -191,6 +191,7 @@ theorem code_matches_model :
       ["u.stats.RqTotal.Inc()",
       "req.RegisterHook(func(req *simpleRequest) { if req.Response().Type == Error { u.stats.RqFailureTotal.Inc() } else { u.stats.RqSuccessTotal.Inc() } u.stats.RqDurationMs.Record(uint64(req.Duration() / time.Millisecond)) })",
       "select { case <-u.quit: req.SetResponse(newError(upstreamExited)) return default: }",
+      "verifPause(\"upstream.request.checked\", u)",
       "c, err := u.getClient(addr)",
       "if err != nil { u.triggerSlotsRefresh() req.SetResponse(newError(err.Error())) return }",
       "c.Send(req)"] ∧
